@@ -11,10 +11,11 @@ import os
 import re
 import time
 import select
+import socket
 
 from dbuswire import (Conn, build_message, METHOD_CALL, METHOD_RETURN, ERROR, SIGNAL, F_PATH, F_INTERFACE,
                       F_MEMBER, F_ERROR_NAME, F_REPLY_SERIAL, F_DESTINATION, F_SENDER, F_SIGNATURE, F_UNIX_FDS,
-                      F_CONTAINER_INSTANCE, split_sig)
+                      F_CONTAINER_INSTANCE, split_sig, message_length)
 from daemon import Daemon, make_config
 
 NSLOTS = 6
@@ -22,7 +23,7 @@ BUSNAME = 'org.freedesktop.DBus'
 BUSPATH = '/org/freedesktop/DBus'
 BIG = 1 << 31
 
-DEFAULT_CFG = {'maxMsgFds': 16, 'maxNames': 100000, 'maxMatch': 100000, 'maxReplies': 100000, 'maxCompleted': 100000,
+DEFAULT_CFG = {'maxMsgFds': 16, 'maxMsgSize': 33554432, 'maxNames': 100000, 'maxMatch': 100000, 'maxReplies': 100000, 'maxCompleted': 100000,
                'maxPerUser': 100000, 'busUid': 0, 'policy': {'kind': 'allow-all'}}
 LIMIT_NAMES = {'maxNames': 'max_names_per_connection', 'maxMatch': 'max_match_rules_per_connection',
                'maxReplies': 'max_replies_per_connection', 'maxCompleted': 'max_completed_connections',
@@ -62,7 +63,15 @@ def norm_args(sig, body):
     return [{'t': ord(s[0]), 'v': norm_val(s, v)} for s, v in zip(split_sig(sig), body)]
 
 
-def norm_msg(m, fdtokens=()):
+def norm_msg(m, fdtokens=(), rawobs=False):
+    r = _norm_msg(m, fdtokens)
+    if rawobs:
+        r['braw'] = list(m.braw)
+        r['le'] = bool(m.le)
+    return r
+
+
+def _norm_msg(m, fdtokens=()):
     f = m.fields
     known = set(range(1, 11))
     return {'ty': m.type, 'snd': B(f.get(F_SENDER)), 'dst': B(f.get(F_DESTINATION)), 'ser': m.serial,
@@ -89,6 +98,7 @@ class SlotState:
         self.joined = []
         self.closed = True     # no connection
         self.eof = False
+        self.mute = False      # wrote an incomplete message: whatever it writes now only completes that message
 
 
 class Driver:
@@ -101,7 +111,7 @@ class Driver:
         if 'replyTimeoutMs' in self.cfg:
             limits['reply_timeout'] = self.cfg['replyTimeoutMs']
         kw = dict(daemon_kw or {})
-        if 'maxMsgSize' in self.cfg:
+        if self.cfg['maxMsgSize'] != 33554432:
             limits['max_message_size'] = self.cfg['maxMsgSize']
         if self.cfg.get('maxMsgFds', 16) != 16:
             limits['max_message_unix_fds'] = self.cfg['maxMsgFds']
@@ -114,7 +124,8 @@ class Driver:
         self.daemon = Daemon(build, **kw)
         self.lines = [{'e': 'Reset', 'cfg': {k: self.cfg[k] for k in
                                               ('maxNames', 'maxMatch', 'maxReplies', 'maxCompleted', 'maxPerUser',
-                                               'busUid', 'policy', 'maxMsgFds')}}]
+                                               'busUid', 'policy', 'maxMsgFds', 'maxMsgSize')}}]
+        self.rawobs = bool(self.cfg.get('rawobs'))
         # baseline of the daemon's descriptor table, taken after it has finished its lazy start-up work
         try:
             w = Conn(self.daemon.path, abstract=self.daemon.abstract)
@@ -135,6 +146,7 @@ class Driver:
         self.nfiles = 0
         self.stall = []
         self.times = {}
+        self.kept = []
 
     # -- writing one op; returns the normalised op record (None = skipped)
     def write_op(self, s, op):
@@ -150,6 +162,7 @@ class Driver:
                 return {'k': 'connect_failed', 'uid': op.get('uid', 0), 'why': str(e)}
             st.closed = False
             st.eof = False
+            st.mute = False
             st.monitor = False
             st.joined = []
             return {'k': 'connect', 'uid': op.get('uid', 0), 'fdcap': bool(st.c.fd_ok)}
@@ -157,6 +170,22 @@ class Driver:
             return None
         c = st.c
         fl = op.get('fl', 0)
+        if k == 'aclose':
+            # abrupt close, no farewell ping; was the line already dead?
+            waseof = False
+            try:
+                c.s.setblocking(False)
+                waseof = c.s.recv(1, socket.MSG_PEEK) == b''
+            except (BlockingIOError, InterruptedError):
+                waseof = False
+            except OSError:
+                waseof = True
+            c.close()
+            st.closed = True
+            st.mute = False
+            return {'k': 'aclose', 'waseof': waseof}
+        if st.mute:
+            return None
         if k == 'hello':
             ser = c.bus_call('Hello', flags=fl)
             return {'k': 'hello', 'ser': ser, 'fl': fl, 'got': []}
@@ -195,8 +224,17 @@ class Driver:
             c.send_raw(data)
             return {'k': 'big', 'n': op['n']}
         if k == 'raw':
-            c.send_raw(bytes(op['bytes']))
-            return {'k': 'raw', 'n': len(op['bytes'])}
+            data = bytes(op['bytes']) if 'bytes' in op else bytes.fromhex(op['hex'])
+            try:
+                c.send_raw(data)
+            except OSError:
+                pass
+            # bookkeeping only (the specification decides what the bytes are): an incomplete message swallows
+            # whatever follows, so this client keeps quiet from now on
+            if len(data) < 16 or (data[0:1] in (b'l', b'B') and message_length(data[:16]) <= self.cfg['maxMsgSize']
+                                  and message_length(data[:16]) <= (1 << 27) and len(data) < message_length(data[:16])):
+                st.mute = True
+            return {'k': 'raw', 'b': list(data), 'mute': st.mute}
         raise ValueError(k)
 
     def resolve(self, x):
@@ -281,7 +319,7 @@ class Driver:
                     self.stall.append(s)
                     return False
                 continue
-            obs.append(norm_msg(m, self.tokens_of(m.fds)))
+            obs.append(norm_msg(m, self.tokens_of(m.fds), self.rawobs))
             if m.type in (METHOD_RETURN, ERROR) and m.fields.get(F_REPLY_SERIAL) == serial \
                     and m.fields.get(F_SENDER) == BUSNAME:
                 return True
@@ -295,7 +333,7 @@ class Driver:
                 if st.c.eof:
                     st.eof = True
                 return
-            obs.append(norm_msg(m, self.tokens_of(m.fds)))
+            obs.append(norm_msg(m, self.tokens_of(m.fds), self.rawobs))
 
     def tokens_of(self, fds):
         """identify received descriptors as the files the driver created (token), then close them"""
@@ -338,6 +376,8 @@ class Driver:
         self.stall = []
         t_start = time.monotonic()
         nfd_before = self.daemon.nfds()
+        # unauthenticated strangers: junk, half handshakes, connect-and-go (no part of the bus state)
+        pre = self.strangers(rnd.get('pre', []))
         # phase 1a: everybody writes
         for s in order:
             st = self.slots[s]
@@ -361,7 +401,7 @@ class Driver:
                     hello_idx.setdefault(s, []).append(len(rec_ops[s]))
                 rec_ops[s].append(r)
                 wrote = wrote or r['k'] not in ('connect', 'connect_failed')
-            if st.closed or st.eof or st.monitor:
+            if st.closed or st.eof or st.monitor or st.mute:
                 continue
             if s in became:
                 p1[s] = became[s]
@@ -407,7 +447,7 @@ class Driver:
         sync = []
         for s in sorted(self.slots):
             st = self.slots[s]
-            if st.closed or st.eof or st.monitor:
+            if st.closed or st.eof or st.monitor or st.mute:
                 continue
             ser = st.c.call(BUSNAME, BUSPATH, 'org.freedesktop.DBus.Peer', 'Ping')
             ok = self.read_until(s, ser, obs[s])
@@ -416,6 +456,13 @@ class Driver:
             st = self.slots[s]
             if st.monitor and not st.closed and not st.eof:
                 self.drain(s, obs[s])
+        # a client that left a message unfinished cannot ping; look whether the daemon hung up on it
+        if any(st.mute and not st.closed for st in self.slots.values()):
+            time.sleep(0.01)
+            for s in sorted(self.slots):
+                st = self.slots[s]
+                if st.mute and not st.closed and not st.eof:
+                    self.drain(s, obs[s], quiet=0.02)
         eof = list(eof_early)
         for s in sorted(self.slots):
             st = self.slots[s]
@@ -438,8 +485,33 @@ class Driver:
             exp_may = max(exp_may, len(self.lines) + 1)     # the round itself lasted longer than the timeout
         line = {'e': 'Round', 'expMay': exp_may, 'expMust': exp_must, 'ops': [rec_ops[s] for s in sorted(self.slots)], 'sync': sync,
                 'obs': [obs[s] for s in sorted(self.slots)], 'eof': eof, 'stall': self.stall}
+        if pre:
+            line['pre'] = pre
         self.lines.append(line)
         return line
+
+    def strangers(self, acts):
+        """connections that never authenticate: {'n': count, 'bytes': hex, 'keep': bool}"""
+        out = []
+        for a in acts:
+            for _ in range(a.get('n', 1)):
+                try:
+                    sk = socket.socket(socket.AF_UNIX, socket.SOCK_STREAM)
+                    sk.settimeout(2.0)
+                    sk.connect(('\0' + self.daemon.path) if self.daemon.abstract else self.daemon.path)
+                    data = bytes.fromhex(a.get('hex', ''))
+                    if data:
+                        sk.sendall(data)
+                    if a.get('keep'):
+                        self.kept.append(sk)
+                    else:
+                        sk.close()
+                except OSError:
+                    pass
+            out.append({'n': a.get('n', 1), 'len': len(a.get('hex', '')) // 2, 'keep': bool(a.get('keep'))})
+        while len(self.kept) > 24:
+            self.kept.pop(0).close()
+        return out
 
     def slot_of_unique(self, name_bytes):
         for s, st in self.slots.items():
@@ -469,6 +541,8 @@ class Driver:
                 self.run_round({'ops': {str(owner): [{'k': 'rel', 'n': n}, {'k': 'query', 'q': 'queued', 'n': n}]}})
 
     def finish(self):
+        for sk in self.kept:
+            sk.close()
         for st in self.slots.values():
             if st.c is not None and not st.closed:
                 st.c.close()
